@@ -73,8 +73,12 @@ func c03Order(c *Ctx) {
 			}
 			sort.Strings(cs)
 			bad := classes["error"] != "" && classes["no match"] != ""
+			if d, _ := m.disjunctive(l); d && classes["leaves the loop early"] != "" {
+				// a range over the alternatives themselves that stops at the first taker: which one is taken follows map order
+				bad = true
+			}
 			c.R.Check(!bad, "C03-R3", fmt.Sprintf("%s: range over %s", fname(f), role), c.pos(rg), fmt.Sprintf("early exits of at most one failure class: %s", strings.Join(cs, ", ")),
-				"the loop can end with an error or with a plain no-match depending on which key the runtime visits first: "+strings.Join(cs, ", "))
+				"the outcome depends on which key the runtime visits first (an error or a plain no-match; or a loop over alternatives that stops at the first one that fits): "+strings.Join(cs, ", "))
 		}
 	}
 	if n == 0 {
